@@ -237,14 +237,17 @@ for _ in range(3 if Q else 20):
     a = build(1.0)
     # scale every interface of a copy
     bset = build(1.0)
-    for itf in bset["interfaces"].values():
-        itf.points.coords[...] *= s
+    done_ = set()
+    for itf in bset["interfaces"].values():      # (two interfaces may share one Points object: scaled once)
+        if id(itf.points) not in done_:
+            done_.add(id(itf.points))
+            itf.points.coords[...] *= s
     arim.ray.ray_tracing_for_paths(list(bset["paths"].values()))
     for name in a["paths"]:
         b1 = model.beamspread_2d_for_path(arim.ray.RayGeometry.from_path(a["paths"][name]))
         b2 = model.beamspread_2d_for_path(arim.ray.RayGeometry.from_path(bset["paths"][name]))
         same_rays = all(np.array_equal(x, y) for x, y in zip(a["paths"][name].rays.indices, bset["paths"][name].rays.indices))
-        if same_rays and not np.allclose(b2, b1 / np.sqrt(s), rtol=1e-10, atol=0):
+        if same_rays and not np.allclose(b2, b1 / np.sqrt(s), rtol=1e-10, atol=0, equal_nan=True):
             chk.violation(f"scaling:{name}", "beamspread does not scale as 1/sqrt(s)",
                           {"path": name, "s": s, "seed2": seed2, "b1": b1, "b2": b2})
         nscale += 1
@@ -260,13 +263,29 @@ for _ in range(3 if Q else 20):
     for name in a["paths"]:
         pa_, pb_ = a["paths"][name], bset["paths"][name]
         pb_.rays = arim.ray.Rays(np.array(pa_.rays.times), np.array(pa_.rays.interior_indices), pb_.to_fermat_path())
+        rga_ = arim.ray.RayGeometry.from_path(pa_)
+        nif_ = len(pa_.interfaces)
+        # well-conditioned rays only: away from grazing incidence / the critical angles (there the virtual distance amplifies
+        # the rounding of the translated coordinates without bound) -- cosines of all interior angles at least 0.3
+        well_ = np.ones(np.asarray(pa_.rays.times).shape, bool)
+        minleg_ = np.inf
+        with np.errstate(all="ignore"):
+            for k_ in range(1, nif_):
+                minleg_ = min(minleg_, float(np.min(rga_.inc_leg_size(k_))))
+                if k_ < nif_ - 1:
+                    inc_k = rga_.conventional_inc_angle(k_)
+                    # (the function derives the refracted angle from the incidence angle by Snell's law, in both directions)
+                    snell_fwd = np.abs(pa_.velocities[k_] / pa_.velocities[k_ - 1] * np.sin(inc_k))
+                    well_ &= (np.abs(np.cos(inc_k)) >= 0.3) & (snell_fwd <= 0.95) & (np.abs(np.cos(rga_.conventional_out_angle(k_))) >= 0.3)
         for fn_ in (model.beamspread_2d_for_path, model.reverse_beamspread_2d_for_path):
             b1 = fn_(arim.ray.RayGeometry.from_path(pa_))
             b2 = fn_(arim.ray.RayGeometry.from_path(pb_))
             nscale += 1
-            # (translating the coordinates rounds them: legs change by about eps * |offset| / leg relative)
-            tol_ = 1e-12 + 8 * np.finfo(float).eps * float(np.max(np.abs(off_))) / 1e-3
-            if not np.allclose(b2, b1, rtol=tol_, atol=0, equal_nan=True):
+            # (translating the coordinates rounds them: a leg changes by about eps * |offset| / leg relative; the factor allows
+            #  for the amplification by 1 / cos^2 of the angles kept above)
+            tol_ = 1e-12 + 400 * np.finfo(float).eps * float(np.max(np.abs(off_))) / max(minleg_, 1e-6)
+            well2_ = well_ & np.isfinite(b1) & np.isfinite(b2)
+            if np.any(well_ & (np.isfinite(b1) != np.isfinite(b2))) or not np.allclose(b2[well2_], b1[well2_], rtol=tol_, atol=0):
                 chk.violation(f"translation:{name}", f"{fn_.__name__} changes when the whole scene is translated by {off_.tolist()} m",
                               {"path": name, "offset": off_, "seed2": seed2, "at_origin": b1, "translated": b2, "rtol": tol_})
                 break
